@@ -19,7 +19,7 @@ def add(pid, pkg, level, qn, tn, module="harness", **kw):
             c[k] = kw[k]
     CHECKS[pid] = c
 
-add("C20", "c20", "exploration", 1000, 4000, exhaustive_if=["FuncsExhaustive"],
+add("C20", "c20", "exploration", 1000, 4000, exhaustive_if=["FuncsExhaustive"], race=True,
     assumptions=["reflection finds every function field of Funcs (fields of func type whose name ends in '_')",
                  "sentinel arguments/results: delegation is judged by identity of what the recorder saw and returned"])
 
